@@ -11,6 +11,16 @@ open HapVerif.Drv
     C08 ev    <wp> u <ann>/<cls> <ann>/<cls> <touch>    => <acts>
     C08 hist  <wp> <op,op,...>                          => <a a a ...> (one letter per op)
     C08 world <wp> <op,op,...>                          => <0|1 per op>
+    C08 list  <wp> <ann>/<cls>,<ann>/<cls>,... <order>  => <ids>   (answer of GetIngressList)
+    C08 lsync <wp> <op,op,...>                          => <bits>/<bits>/... (one group per op)
+
+  list:  the cluster holds ingresses 0..n-1 with the given class states, the client lists them in
+         <order> (digits, e.g. `201`; ingresses not named follow in index order); <ids> = the indexes
+         of the returned ingresses, `,`-joined in answer order, `-` = none
+  lsync: several ingresses through real watchers + real converters, one reconciliation per op; ops as
+         in `hist` (`c<i>:<ann>/<cls>`, `u<i>:<ann>/<cls>:<touch>`, `d<i>`) plus `F<order>` = a
+         reconciliation that asks for a FULL sync while the client lists in <order>; one bit per
+         ingress 0..N-1 after each op: its host is in the haproxy model
 
   <wp>    two digits: watch-ingress-without-class, ingress-class-precedence
   <ann>   `-` absent, `o` the controller's class, `f` `f1` `f2` other values ("nginx", "", "HAProxy")
@@ -156,8 +166,104 @@ def parseOp2 (s : String) : Option Op2 :=
   | ["k", "f"] => some (.classSet .foreign)
   | _ => none
 
+/-- the annotation as the harness writes it (harness/c08class annValue): (value, present) -/
+def annRaw : String → Option (String × Bool)
+  | "-" => some ("", false)
+  | "o" => some ("haproxy", true)
+  | "f" => some ("nginx", true)
+  | "f1" => some ("", true)
+  | "f2" => some ("HAProxy", true)
+  | _ => none
+
+/-- `config.IngressClass` of the harness (xnsworld.IngressClass) -/
+def ingressClass : String := "haproxy"
+
+/-- an item of a `list` case: the annotation goes through the RAW lookup pair -/
+def parseObjRaw (s : String) : Option (Obj × (String × Bool)) :=
+  match s.splitOn "/" with
+  | [a, c] => do
+    let r ← annRaw a
+    pure ({ ann := absOf ingressClass r, cls := ← parseCls c, annRest := variant a, specRest := variant c }, r)
+  | _ => none
+
+def digits (s : String) : Option (List Nat) :=
+  s.toList.mapM fun ch => if ch.isDigit then some (ch.toNat - '0'.toNat) else none
+
+/-- the order the client lists in: the named ingresses first (first occurrence), the others after
+them in index order — what the harness' ordering client does -/
+def fullOrder (n : Nat) (order : List Nat) : List Nat :=
+  (order.eraseDups.filter (· < n)) ++ (List.range n).filter (fun i => !order.contains i)
+
+def showIds (l : List Nat) : String :=
+  if l.isEmpty then "-" else ",".intercalate (l.map toString)
+
+def parseIds (s : String) : Option (List Nat) :=
+  if s = "-" then some [] else (s.splitOn ",").mapM (·.toNat?)
+
+inductive LOp
+  | h (o : HOp)
+  | full (order : List Nat)
+
+def parseLOp (s : String) : Option LOp :=
+  if s.startsWith "F" then (digits (s.drop 1).toString).map LOp.full else (parseHOp s).map LOp.h
+
+def LOp.maxIdx : LOp → Nat
+  | .h (.create i _) => i
+  | .h (.update i _ _) => i
+  | .h (.delete i) => i
+  | .full _ => 0
+
+def bitsOf (n : Nat) (f : Nat → Bool) : String := String.ofList ((List.range n).map fun i => if f i then '1' else '0')
+
+/-- runs the model over an `lsync` history: per op the configured bits, the selected bits (the
+rule on the API objects after the op) and whether the reconciliation was a full sync -/
+def runLSync (cfg : Cfg) (n : Nat) (ops : List LOp) : Option (List (String × (Nat → Bool) × Bool)) :=
+  (·.1) <$> ops.foldlM (fun (acc : List (String × (Nat → Bool) × Bool) × StF) lop => do
+    let (s', full) ← match lop with
+      | .h hop => do
+        let op ← toOp acc.2.st hop
+        pure (stepF cfg acc.2 (.op op), false)
+      | .full order => pure (stepF cfg acc.2 (.full order), true)
+    let w := s'.st.world
+    let sel : Nat → Bool := fun i => match w i with | some o => o.selected cfg | none => false
+    pure (acc.1 ++ [(bitsOf n s'.st.contrib, sel, full)], s')) ([], {})
+
 def handle (args : List String) (impl : String) : Verdict :=
   match args with
+  | ["list", wp, itemsS, orderS] =>
+    match parseCfg wp, parseList parseObjRaw itemsS, digits orderS with
+    | some cfg, some items, some order =>
+      let l := items.map (·.1)
+      let n := l.length
+      -- the abstraction and the raw transcription must give the same verdict (Props/C08List raw_eq_abs)
+      let rawOk := items.all fun x => isValidRaw cfg ingressClass x.2 x.1.cls == x.1.valid cfg
+      let m := listed cfg (worldOf l) (fullOrder n order)
+      match parseIds impl with
+      | some ids =>
+        { model := showIds m, agree := rawOk && ids = m, oracle := oracleList cfg l ids, trivial := n < 2 }
+      | none => { model := showIds m, agree := false, oracle := some "list-answer-unreadable" }
+    | _, _, _ => bad "list-parse"
+  | ["lsync", wp, opsS] =>
+    match parseCfg wp, parseList parseLOp opsS with
+    | some cfg, some ops =>
+      let n := (ops.map LOp.maxIdx).foldl max 0 + 1
+      match runLSync cfg n ops with
+      | none => bad "lsync-touch"
+      | some steps =>
+        let m := "/".intercalate (steps.map (·.1))
+        let groups := impl.splitOn "/"
+        let verdict : Option String :=
+          if groups.length ≠ steps.length then some "lsync-length" else
+          (steps.zip groups).foldl (fun r (st, g) =>
+            match r with
+            | some e => some e
+            | none =>
+              let gl := g.toList
+              if gl.length ≠ n then some "lsync-length" else
+              oracleSync n st.2.2 (fun i => gl.getD i '0' == '1') st.2.1) none
+        { model := m, agree := m = impl, oracle := verdict,
+          trivial := n < 2 || !(ops.any fun o => match o with | .full _ => true | _ => false) }
+    | _, _ => bad "lsync-parse"
   | ["valid", wp, a, c] =>
     match parseCfg wp, parseAnn a, parseCls c, impl.toList with
     | some cfg, some a, some c, [v, g, l] =>
